@@ -721,6 +721,10 @@ func (m *Machine) sliceElem(s Slice, i int) value {
 	return arr[s.off+i]
 }
 func (m *Machine) setSliceElem(s Slice, i int, v value) {
+	if m.frozen {
+		// append into spare capacity, copy, and swaps write through the slice into its array
+		m.checkWrite(s.arr, "slice element", nil)
+	}
 	if s.arr.grow != nil {
 		m.growTo(s.arr, s.off+i+1)
 	}
